@@ -293,7 +293,7 @@ func init() {
 			"removal); validated by the real validators; non-trivial = accepted; distinct = distinct op line",
 		Gen: func(r *Rand, i int, tier string) []string {
 			g, last := genC29History(r, tier)
-			if g.epoch > 1<<61 { // chain identities are derived at the wall clock: keep histories in the past
+			if g.epoch > 1700000000000000000 { // chain identities are derived at the wall clock: keep histories in the past
 				g.epoch = 1551312000000000000 + g.epoch%(400*c25OneDay)
 				return []string{"reset"}
 			}
